@@ -1,7 +1,7 @@
 (* Props/C07.v -- property theorems for C07 (global switch). Statements only; proofs are in Thm/C07. *)
 From Coq Require Import List ZArith Bool String.
 Import ListNotations.
-Require Import Base Prog Interp InterpFacts State ScnSwitch Switch.
+Require Import Base Prog Sig Interp InterpFacts Model Validators HasPatcher Contracts State ScnSwitch Switch Loops Gate.
 
 (* Every history of switch operations, run on the code generated from deal/_state.py, behaves as the
    two-boolean machine [hist_spec]; any function table, any fuel, any `warn` arguments, either __debug__. *)
@@ -53,6 +53,18 @@ Print Assumptions C07_permanent_final.
 Theorem C07_frame : forall py_debug h s, rest (snd (hist_spec py_debug s h)) = rest s.
 Proof. exact hist_rest. Qed.
 Print Assumptions C07_frame.
+
+(* while disabled, a decorated plain function or coroutine is exactly the original: the generated wrapper evaluates no
+   validator and patches nothing (its whole execution is the original call: same outcome object, same final world) *)
+Theorem C07_disabled_inert_sync : forall ftab lf c n a k w r w1,
+  debug (wst w) = false ->
+  interp ftab n (call_func (c_func c) a k) w = Done r w1 -> interp ftab n (RunSync.run lf c a k) w = Done r w1.
+Proof. exact disabled_sync. Qed.
+Theorem C07_disabled_inert_async : forall ftab lf c n a k w r w1,
+  debug (wst w) = false ->
+  interp ftab n (call_func (c_func c) a k) w = Done r w1 -> interp ftab n (RunAsync.run lf c a k) w = Done r w1.
+Proof. exact disabled_async. Qed.
+Print Assumptions C07_disabled_inert_sync.
 
 (* non-vacuity: a concrete history meets the premises of C07_permanent_final and of C07_enforced_iff_last *)
 Example C07_nonvacuous :
